@@ -465,12 +465,12 @@ def r8_found_items_have_urls(ctx, rep):
 
 
 RULES = [
-    RuleSpec("C11.R6", r6_item_anchors, "[[owner:item]] targets: item anchors exist on the owner's page (shared with C09.R8)", floor=30),
-    RuleSpec("C11.R1", r1_kinds, "documented kinds are the implemented kinds", floor=50),
-    RuleSpec("C11.R2", r2_lookup_order, "lookup order and protected attempts", floor=8),
-    RuleSpec("C11.R3", r3_priority, "code spans win", floor=2),
-    RuleSpec("C11.R4", r4_conversion_location, "every conversion has a location", floor=7),
-    RuleSpec("C11.R5", r5_link_syntax, "reference syntax", floor=8),
+    RuleSpec("C11.R6", r6_item_anchors, "[[owner:item]] targets: item anchors exist on the owner's page (shared with C09.R8)", floor=16),
+    RuleSpec("C11.R1", r1_kinds, "documented kinds are the implemented kinds", floor=45),
+    RuleSpec("C11.R2", r2_lookup_order, "lookup order and protected attempts", floor=5),
+    RuleSpec("C11.R3", r3_priority, "code spans win", floor=1),
+    RuleSpec("C11.R4", r4_conversion_location, "every conversion has a location", floor=5),
+    RuleSpec("C11.R5", r5_link_syntax, "reference syntax", floor=4),
     RuleSpec("C11.R8", r8_found_items_have_urls, "every entity find_child can hand out has a URL", floor=30),
-    RuleSpec("C11.R7", r7_item_collections, "item collections searched by find_child are sequences", floor=8),
+    RuleSpec("C11.R7", r7_item_collections, "item collections searched by find_child are sequences", floor=5),
 ]
